@@ -370,6 +370,9 @@ def _len(interp, args, kwargs):
     if isinstance(v, GenResult):
         interp.raise_py("TypeError", "object of type 'generator' has no len()")
     if isinstance(v, SBytes):
+        if getattr(rt, "wire", None) is not None:
+            from .wire import SLen
+            return SLen(rt.blen(v.e), v)      # an integer that remembers what it is the length of (length octets)
         return SInt(rt.blen(v.e))
     if isinstance(v, SStr):
         return SInt(rt.slen(v.e))
